@@ -27,11 +27,14 @@ from . import core, npshim, symstr
 REPO = os.environ.get("GBIGSMILES_REPO", "/repo")
 PKG = "gbigsmiles"
 
-SHIM_NUMPY_IN = {"core", "bond", "system", "graph_generate", "mol_prob"}
+# numpy is replaced by the shim in every module of the package (also in modules that only import it after a change)
+# except where it is used for geometry (mol_gen) or handed to scipy (distribution)
+NO_NUMPY_SHIM_IN = {"mol_gen", "distribution", "_version", "__init__"}
 
 
 class Rewriter(ast.NodeTransformer):
-    def __init__(self):
+    def __init__(self, shim_numpy=True):
+        self.shim_numpy = shim_numpy
         self.loop_id = 0
         self.counts = {"fstr": 0, "in": 0, "call": 0, "while": 0}
 
@@ -70,8 +73,54 @@ class Rewriter(ast.NodeTransformer):
             return ast.copy_location(call, node)
         return node
 
+    def _shimmed(self, modname):
+        if modname == "re":
+            return "__sx_re__"
+        if modname == "numpy" and self.shim_numpy:
+            return "__sx_np__"
+        if modname == "numpy.random" and self.shim_numpy:
+            return "__sx_np__.random"
+        return None
+
+    def visit_Import(self, node):
+        # `import re` / `import numpy as np` (module level or local): bind the proxy instead, so that also objects created at
+        # import time (compiled patterns, arrays) are the proxies'
+        out, keep = [], []
+        for a in node.names:
+            tgt = self._shimmed(a.name)
+            if tgt is None:
+                keep.append(a)
+                continue
+            name = a.asname or a.name.split(".")[0]
+            out.append(ast.Assign([ast.Name(name, ast.Store())], ast.parse(tgt if a.asname or "." not in a.name else tgt.split(".")[0], mode="eval").body))
+        if keep:
+            out.insert(0, ast.Import(keep))
+        return [ast.copy_location(n, node) for n in out]
+
+    def visit_ImportFrom(self, node):
+        tgt = self._shimmed(node.module) if node.level == 0 and node.module else None
+        if tgt is None or any(a.name == "*" for a in node.names):
+            return node
+        out = []
+        for a in node.names:
+            out.append(ast.Assign([ast.Name(a.asname or a.name, ast.Store())], ast.parse(f"__sx_getattr__({tgt}, {a.name!r})", mode="eval").body))
+        return [ast.copy_location(n, node) for n in out]
+
+    def visit_BinOp(self, node):
+        self.generic_visit(node)
+        if isinstance(node.op, ast.Mod) and isinstance(node.left, ast.Constant) and isinstance(node.left.value, str):
+            self.counts["call"] += 1
+            return ast.copy_location(ast.Call(ast.Name("__sx_mod__", ast.Load()), [node.left, node.right], []), node)
+        return node
+
     def visit_Call(self, node):
         self.generic_visit(node)
+        if (isinstance(node.func, ast.Attribute) and node.func.attr in ("join", "format") and isinstance(node.func.value, ast.Constant)
+                and isinstance(node.func.value.value, str) and not any(isinstance(a, ast.Starred) for a in node.args)
+                and not any(k.arg is None for k in node.keywords)):
+            self.counts["call"] += 1
+            return ast.copy_location(ast.Call(ast.Name("__sx_strmeth__", ast.Load()), [ast.Constant(node.func.attr), node.func.value] + node.args,
+                                              node.keywords), node)
         if isinstance(node.func, ast.Name) and node.func.id in ("str", "int", "float", "isinstance"):
             if not node.keywords:
                 node.func = ast.copy_location(
@@ -150,7 +199,24 @@ HOOKS = {
     "__sx_float__": symstr.to_float,
     "__sx_isinstance__": _sx_isinstance,
     "__sx_tick__": _tick,
+    "__sx_strmeth__": symstr.str_method,
+    "__sx_mod__": symstr.mod_format,
+    "__sx_re__": symstr.RE,
+    "__sx_np__": npshim.np,
 }
+
+
+def _sx_getattr(obj, name):
+    try:
+        return getattr(obj, name)
+    except core.Unsupported:
+        def _unmodelled(*a, **kw):
+            raise core.Unsupported(f"{name} is not modelled by the proxies")
+
+        return _unmodelled
+
+
+HOOKS["__sx_getattr__"] = _sx_getattr
 
 # --- finder / loader ----------------------------------------------------------
 
@@ -183,15 +249,36 @@ class _Loader(importlib.abc.Loader):
         if short in PATCHES:
             src = PATCHES[short](src)
         tree = ast.parse(src, filename=self.path)
-        rw = Rewriter()
+        rw = Rewriter(shim_numpy=short not in NO_NUMPY_SHIM_IN)
         tree = rw.visit(tree)
         ast.fix_missing_locations(tree)
         REWRITE_COUNTS[short] = rw.counts
         code = compile(tree, self.path, "exec", dont_inherit=True)
         module.__dict__.update(HOOKS)
         exec(code, module.__dict__)
-        if short in SHIM_NUMPY_IN and "np" in module.__dict__:
-            module.__dict__["np"] = npshim.np
+        if short not in NO_NUMPY_SHIM_IN:
+            import numpy as _rnp
+
+            for k, v in list(module.__dict__.items()):
+                if v is _rnp:
+                    module.__dict__[k] = npshim.np
+                elif v is _rnp.random:
+                    module.__dict__[k] = npshim.np.random
+                elif callable(v) and getattr(_rnp, getattr(v, "__name__", "?"), None) is v and not isinstance(v, type):
+                    try:  # `from numpy import zeros`
+                        module.__dict__[k] = getattr(npshim.np, v.__name__)
+                    except core.Unsupported:
+                        def _unmodelled(*a, _n=v.__name__, **kw):
+                            raise core.Unsupported(f"numpy.{_n} is not modelled by the shim")
+
+                        module.__dict__[k] = _unmodelled
+        import re as _real_re
+
+        for k, v in list(module.__dict__.items()):
+            if v is _real_re:
+                module.__dict__[k] = symstr.RE
+            elif callable(v) and getattr(v, "__module__", None) == "re" and getattr(_real_re, getattr(v, "__name__", "?"), None) is v:
+                module.__dict__[k] = getattr(symstr.RE, v.__name__)  # `from re import fullmatch`
         if "warn" in module.__dict__:
             module.__dict__["warn"] = _no_warn
         if "make_tuple" in module.__dict__:
